@@ -12,6 +12,7 @@ import numpy as np
 from harness.framework import cnatlist, cnatlist2, pmap
 
 LEVEL = "proof"
+TRANSLATED_KERNELS = ["_store_array.region_guards"]   # harness/translate.py: the two region refusals of _store_array re-translated from /repo on every run and proved equal to Model.StoreGuard (= negations of Model.StoreRegion.aligned / chunks_ok, Proofs/StoreGuardProofs.v)
 RULE = ("calls store/to_zarr with sources {in-memory, computed, rechunked, fused chain}, targets {path, path+group path, existing Zarr "
         "array of equal / other chunking, sharded array}, regions {none, full, chunk-aligned, end-of-axis, misaligned, wrong shape}, "
         "eager and lazy, lists of pairs incl. one source to several targets, after the same lazy source was computed or stored elsewhere before (histories), on the local executors; targets are pre-filled with a "
